@@ -630,7 +630,7 @@ def runLh (f : List String) (impl : String) : Ans :=
         | _ => false
       let onlyLoads := items.all fun it => it.startsWith "L"
       { model := ",".intercalate fin.out,
-        verdict := if anyCaseDup && !onlyLoads then "skip"   -- which product wins is decided by Go's map iteration order
+        verdict := if anyCaseDup && !onlyLoads && !sniConfDuplicateCheckFoldsCase then "skip"   -- (unrepaired loader: Go's map iteration order decides which product wins)
                    else match fin.bad with | some b => "FAIL:" ++ b | none => "ok",
         tags := ["lh"] ++ (if fin.out.contains "rej" then ["lh-rejected-reload"] else []) ++
                 (if (fin.out.filter (· == "ok")).length ≥ 2 then ["lh-two-accepted"] else []) ++
